@@ -385,6 +385,13 @@ def check_tree(tree, freqs, st, viol, keys, label):
                     bad("C01/simulate-spectrum", "simulate_spectrum pairs an impedance with the wrong frequency")
             except Exception as e:
                 bad(f"C01/simulate-spectrum-raised:{type(e).__name__}", monitors.tb_tail(e))
+    # (iv) the form in which the frequency vector is handed over (list, integer array, read-only array, strided or reversed
+    # view) is not part of the circuit: same values, and the caller's vector is left as it was
+    if "objects" in oks:
+        _input_forms(c_obj, freqs, oks["objects"], st, bad)
+    # (v) the same element INSTANCE placed twice (object route only): series/parallel laws over the shared leaf
+    if "objects" in oks:
+        _aliased_leaf(c_obj, freqs, st, bad)
     # Element.get_impedances: array == one-at-a-time for every leaf (the reference relies on the array form)
     for e_obj in c_obj.get_elements(recursive=True)[:6]:
         try:
@@ -452,6 +459,68 @@ def check_tree(tree, freqs, st, viol, keys, label):
             if not all(_close(complex(a), b) for a, b in zip(zl, rv)):
                 bad("C01/composition-law", f"sub-circuit {k} of {e_spec['sym']}: {zl[:2]} vs reference {rv[:2]}")
     keys.append((G.brief(want), tuple(sorted(kinds.items()))))
+
+
+def _input_forms(c_obj, freqs, z, st, bad):
+    ro = freqs.copy()
+    ro.setflags(write=False)
+    forms = [("list", freqs.tolist(), z), ("readonly", ro, z), ("strided", np.repeat(freqs, 2)[::2], z), ("reversed-view", freqs[::-1], z[::-1])]
+    fi = np.unique(np.round(freqs[(freqs >= 0.5) & (freqs < 2**52)]))
+    if fi.size:
+        kf, zf = _lib(c_obj, fi.astype(float))
+        if kf == "ok":
+            forms += [("int-array", fi.astype(np.int64)[::-1].copy(), zf[::-1]), ("int-list", [int(x) for x in fi], zf), ("int32-array", fi[fi < 2**31].astype(np.int32), zf[fi < 2**31])]
+    for name, g, want in forms:
+        if len(g) == 0:
+            continue
+        before = np.array(g, dtype=float)
+        k, o = _lib(c_obj, g)
+        st["input_form:" + name] = st.get("input_form:" + name, 0) + 1
+        if k != "ok":
+            bad(f"C01/input-form:{name}", f"frequency vector given as {name}: {type(o).__name__}: {o} (the float64 array of the same values evaluates)")
+            continue
+        o = np.asarray(o)
+        if o.shape != (len(before),) or not all(_close(complex(a), complex(b), 1e-13) for a, b in zip(o, want)):
+            bad(f"C01/input-form:{name}", f"frequency vector given as {name}: {o[:3]} vs {np.asarray(want)[:3]} for the float64 array of the same values")
+        if not np.array_equal(np.array(g, dtype=float), before):
+            bad(f"C01/input-mutated:{name}", f"get_impedances changed the caller's frequency vector ({name})")
+        if isinstance(g, np.ndarray) and np.shares_memory(o, g):
+            bad(f"C01/input-mutated:{name}", "the returned impedances share memory with the caller's frequency vector")
+
+
+def _aliased_leaf(c_obj, freqs, st, bad):
+    from pyimpspec import Circuit, Series, Parallel
+    from pyimpspec.circuit.base import Container
+
+    els = [e for e in c_obj.get_elements(recursive=False) if not isinstance(e, Container)]
+    if not els:
+        return
+    a = els[0]
+    b = els[-1]
+    f = freqs[:5]
+    try:
+        with np.errstate(all="ignore"):
+            za, zb = a.get_impedances(f), b.get_impedances(f)
+    except Exception:
+        return
+    if not (np.all(np.isfinite(za)) and np.all(np.isfinite(zb)) and np.all(za != 0) and np.all(zb != 0)):
+        return
+    for name, make, want in (
+        ("series-twice", lambda: Circuit(Series([a, a])), za + za),
+        ("parallel-twice", lambda: Circuit(Series([Parallel([a, a])])), za / 2),
+        ("series-of-parallel-shared", lambda: Circuit(Series([a, Parallel([a, b])])), za + 1 / (1 / za + 1 / zb)),
+        ("parallel-of-series-shared", lambda: Circuit(Series([Parallel([Series([a, b]), a]), b])), 1 / (1 / (za + zb) + 1 / za) + zb),
+    ):
+        try:
+            with np.errstate(all="ignore"):
+                c = make()
+                o = c.get_impedances(f)
+        except Exception as e:
+            bad(f"C01/shared-instance-raised:{type(e).__name__}", f"{name} with one {a.get_symbol()} instance placed twice: {monitors.tb_tail(e)}")
+            continue
+        st["shared_instance"] = st.get("shared_instance", 0) + 1
+        if not all(_close(complex(x), complex(y), 1e-9) for x, y in zip(o, want)):
+            bad("C01/shared-instance", f"{name} with one {a.get_symbol()} instance placed twice: {o[:2]} vs composition {want[:2]}")
 
 
 def _nested(node, obj, top=True):
@@ -577,7 +646,8 @@ def finalize(agg):
     s = agg["stats"]
     inc = []
     for need in ("compared_points", "ref_open_branch", "ref_short_branch", "route_pairs", "vector_relations", "simulate_spectrum", "subcircuit_compared",
-                 "overload:list", "overload:element", "overload:parallel", "builder_incremental", "builder_reconverted_after_change"):
+                 "overload:list", "overload:element", "overload:parallel", "builder_incremental", "builder_reconverted_after_change",
+                 "input_form:list", "input_form:int-array", "input_form:reversed-view", "shared_instance"):
         if s.get(need, 0) == 0:
             inc.append(f"'{need}' never observed")
     return {"viol": [], "inconclusive": inc}
